@@ -10,22 +10,22 @@ HOOK_COMMITS = subprocess.run(
 CHECKS = {
  "C19": (True,
    "trap monitor + shadow reference: the real main.ts (under node) and a Rust transliteration of it drive the real JsInterpreter under catch_unwind while a shadow core interpreter checks state, outputs and error text",
-   "Random page-event sequences (program file loaded at start-up, submitted lines / replies / commands, break requests, timer ticks) are handled the way main.ts handles them against the native build of the real adapter; every adapter call is guarded against panics (traps, incl. the adapter's own assertions and the unreachable state arm) and mirrored on a shadow abasic_core::Interpreter whose state, output records and error text must equal what the adapter exposes; NEW must behave like a fresh interpreter.",
+   "Random page-event sequences (program file loaded at start-up, lines submitted while it is still being downloaded, submitted lines / replies / commands, listings of hundreds of lines, break requests, timer ticks) are handled the way main.ts handles them against the native build of the real adapter; every adapter call is guarded against panics (traps, incl. the adapter's own assertions and the unreachable state arm) and mirrored on a shadow abasic_core::Interpreter whose state, output records and error text must equal what the adapter exposes; NEW must behave like a fresh interpreter.",
    "Two drivers: (1) a Rust transliteration of main.ts tied to the source by patterns read at run time; (2) the REAL main.ts, type-stripped by regexes and executed under node 20 with ui.ts mocked, calling the real adapter over a synchronous RPC bridge (inconclusive if the stripped script stops parsing). Native rlib build of the adapter instead of the wasm artefact.",
    "DESIGN.md §5 C19"),
  "C20": (True,
    "black-box monitoring of the real abasic-lsp child process over JSON-RPC: liveness, UTF-16 bounds oracle, equality with the in-process analyzer",
-   "Scripted sessions (initialize, didOpen/didChange/didClose over several URIs, semanticTokens/full, bursts of notifications followed by a barrier request, shutdown, exit) are run against the real server binary; every notification must be answered by a publishDiagnostics (in a burst: all of them, in order, once the barrier is answered) and the child must be alive; every range and decoded semantic token must lie inside the document measured in UTF-16 units, tokens ordered, non-overlapping and typed within the advertised legend; diagnostics and tokens must equal the in-process analyzer's results converted by an independent byte->UTF-16 model.",
+   "Scripted sessions (initialize, didOpen/didChange/didClose over several URIs, semanticTokens/full, bursts of notifications followed by a barrier request, shutdown, exit) are run against the real server binary; every notification is followed by a request that acts as a barrier and must have been answered by a publishDiagnostics once the barrier is answered (in a burst: all of them, in order); document versions restart at every didOpen; the client offers one of seven position-encoding lists and positions are checked in the unit the server announces; the child must be alive; every range and decoded semantic token must lie inside the document measured in UTF-16 units, tokens ordered, non-overlapping and typed within the advertised legend; diagnostics and tokens must equal the in-process analyzer's results converted by an independent byte->UTF-16 model.",
    "Debug build of the server on stdio; missing responses while the child is alive are inconclusive; no lone CR in documents.",
    "DESIGN.md §5 C20"),
  "C05": (True,
    "contract monitor over analyzer executions (catch_unwind + well-formedness oracle on every diagnostic and token range), exhaustive over short sequences of line kinds",
-   "SourceFileAnalyzer::analyze runs on every sequence of up to 3 lines from 22 line kinds over two line numbers (so every duplicate / emptied / untokenizable redefinition shape is present), on random structured files, arbitrary UTF-8 files and (partially typed) generated programs; every diagnostic must map to a range on the line it names, in bounds and on char boundaries, and per-line token ranges must be ordered and non-overlapping; panics are caught per file.",
+   "SourceFileAnalyzer::analyze runs on every sequence of up to 3 lines from 22 line kinds over two line numbers (so every duplicate / emptied / untokenizable redefinition shape is present), on random structured files, arbitrary UTF-8 files, (partially typed) generated programs and files of 900-2600 lines with a message on almost every line; every diagnostic must map to a range on the line it names, in bounds and on char boundaries, and per-line token ranges must be ordered and non-overlapping; panics are caught per file.",
    "Native-stack exhaustion through the analyzer has its own child-process depth workload here (monitor and ship builds), in addition to C01's grid.",
    "DESIGN.md §5 C05"),
  "C06": (True,
    "differential monitoring of two implementations: analyzer verdict vs observed execution outcome, over generated lines and over programs run along all forced branches",
-   "For straight-line generated lines (45% with typing/syntax mistakes) the analyzer's verdict is compared with an actual run from a fresh state in both directions the property states; for generated programs whose IF conditions test INPUT-controlled variables, analysis-clean programs are executed under all 2^k reply vectors and must never end in SYNTAX / TYPE MISMATCH / UNDEF'D STATEMENT.",
+   "For straight-line generated lines (45% with typing/syntax mistakes) the analyzer's verdict is compared with an actual run from a fresh state in both directions the property states; files of up to 94 failing lines followed by a valid one must not get the valid line rejected (and must hand a zero nesting counter to the interpreter); lines behind STOP are executed by CONT; for generated programs (half of them with their lines shuffled in the file) whose IF conditions test INPUT-controlled variables, analysis-clean programs are executed under all 2^k reply vectors and must never end in SYNTAX / TYPE MISMATCH / UNDEF'D STATEMENT.",
    "Only the stated implications are checked (never which error or where); known finding C06-KF1 (= C03-KF1) recognised by signature.",
    "DESIGN.md §5 C06"),
  "C14": (True,
@@ -50,7 +50,7 @@ CHECKS = {
    "DESIGN.md §5 C04"),
  "C16": (True,
    "invariant at a hook: snapshot invariants S1-S4 after every host call of hostile sessions + cap-chasing programs with predicted outcomes",
-   "The snapshot hook is evaluated after every host call (here and as a tripwire in every other session-driving check): <= 32 frames, <= 32 loops with distinct variables, array cells == product of dimensions <= 10000, kinds match name suffixes for variables, cells and parameters. A catalogue of cap chasers (recursion to 32/33 frames, 32/33 nested FORs, 5000-fold FOR re-entry and loop abandonment, DIM products around the cap, overflowing bounds, 1-19 implicit subscripts, every mistyped write path) must end with the predicted OUT OF MEMORY / TYPE MISMATCH and leave the interpreter usable. Monitor and ship builds.",
+   "The snapshot hook is evaluated after every host call (here and as a tripwire in every other session-driving check): <= 32 frames, <= 32 loops with distinct variables, array cells == product of dimensions <= 10000, kinds match name suffixes for variables, cells and parameters. A catalogue of cap chasers (recursion to 32/33 frames, 32/33 nested FORs, 5000-fold FOR re-entry and loop abandonment, DIM products around the cap, overflowing bounds, 1-19 implicit subscripts, every mistyped write path) must end with the predicted OUT OF MEMORY / TYPE MISMATCH and leave the interpreter usable; dozens of subroutines entered from the prompt at a breakpoint and never returned from must not make a further GOSUB fail. Monitor and ship builds.",
    "Function-call frames exist only during a call and are therefore never visible at a turn boundary; their cap is checked through outcomes.",
    "DESIGN.md §5 C16"),
  "C07": (True,
@@ -90,7 +90,7 @@ CHECKS = {
    "DESIGN.md §5 C17"),
  "C02": (True,
    "history + executable reference model: PRINT <expr> on the real interpreter vs an independent AST fold, exhaustive over small trees in two parenthesisations",
-   "All trees with one binary operator over 68 decorated operands, all trees with two (quick) and three (thorough) binary operators over reduced operand sets, and random trees to depth 5 are printed with minimal and with redundant parentheses, evaluated by the real interpreter through PRINT and compared (text or error kind) with the reference fold. Held on every tree executed; exhaustive for the stated bounds.",
+   "All trees with one binary operator over 68 decorated operands, all trees with two (quick) and three (thorough) binary operators over reduced operand sets, and random trees to depth 5 (with numerals of 15-18 significant digits) are printed with minimal and with redundant parentheses, every other case with runtime warnings enabled, evaluated by the real interpreter through PRINT and compared (text or error kind) with the reference fold. Held on every tree executed; exhaustive for the stated bounds.",
    "Trusts f64 Display and libm powf shared by model and implementation; unary plus only over numeric operands.",
    "DESIGN.md §5 C02"),
  "C12": (True,
@@ -100,7 +100,7 @@ CHECKS = {
    "DESIGN.md §5 C12"),
  "C13": (True,
    "contract monitor over tokenizer and analyzer executions: range well-formedness + re-tokenization oracle, exhaustive over short atom sequences; analyzer-reported ranges vs tokenizer ranges per file line",
-   "Every line of up to 4 atoms of a 64-atom alphabet (plus a sample of 5-atom lines in the thorough tier, random token lines with line-number prefixes and arbitrary UTF-8 text) is tokenized through the hook; each reported range is checked for bounds, char boundaries, order, non-blank ends, REM/DATA extent, and the range text is re-tokenized alone and must give exactly that token; for failing lines the prefix before the error position must tokenize to exactly the tokens reported; files (indentation, BOM, CR, odd line numbers) go through SourceFileAnalyzer, whose token ranges and mapped tokenization-error range per file line must equal the tokenizer's. Held on every line executed; exhaustive for the stated bound.",
+   "Every line of up to 4 atoms of a 64-atom alphabet (plus a sample of 5-atom lines in the thorough tier, random token lines with line-number prefixes and arbitrary UTF-8 text) is tokenized through the hook; each reported range is checked for bounds, char boundaries, order, non-blank ends, REM/DATA extent, and the range text is re-tokenized alone and must give exactly that token; for failing lines the prefix before the error position must tokenize to exactly the tokens reported; files (indentation, BOM, CR, odd line numbers) go through SourceFileAnalyzer, whose token ranges and mapped tokenization-error range per file line must equal the tokenizer's; a line that does not tokenize is reported by the interpreter (message, line named, caret lines) exactly as by a fresh interpreter, whatever failed before. Held on every line executed; exhaustive for the stated bound.",
    "Trusts that the hook calls the same Tokenizer as the interpreter (it does: verif_hooks.rs); the analyzer's use of it is checked, not assumed.",
    "DESIGN.md §5 C13"),
  "C18": (True,
